@@ -21,8 +21,16 @@ find_prog_section match and the address comparison are the generated expressions
    INPUT object only — `FlatDomain` — plus "no address/offset range of the saved object reaches 2^64"):
    save, then the model's `load` of the saved bytes (eager or lazy, string- or file-backed stream, into
    any object without address translation) succeeds and `validate` of the loaded object returns no
-   complaint (composition `C02.load_eq_spec` ∘ `C03.save_decodes`, see families/c02.py).  Not covered by
-   the composed theorem: nested segments (validate_silent_reloaded_nested still carries the hypothesis).
+   complaint (composition `C02.load_eq_spec` ∘ `C03.save_decodes`, see families/c02.py).  Nested segments:
+   Compose.validate_silent_reloaded_nested_unconditional (Props/Compose2.lean) - objects whose segments are flat
+   (`selE`) or nested (`selN`, `layoutNestedB`), hypotheses on the input object (`NestedDomain`) plus `NoWrap64`
+   of the saved object and the hypothesis of validate_silent_save_nested about nested PT_LOADs: validate is silent
+   on the saved object and on the object `load` yields from the saved bytes (the former hypothesis "the loader
+   reports those fields as saved" is discharged by Compose.reload_reports_saved_nested: a nested segment's file
+   range ends at the end of one of its members, hence inside the file).  Non-vacuity: exNestedM (exFlatM plus a
+   PT_LOAD nested in the first one) meets every hypothesis (exNested_ok).
+   Compose.validate_silent_reloaded_flat_input: validate_silent_reloaded_flat with `NoWrap64` of the saved object
+   replaced by the input-side `noWrap64InB o hd` (Compose.noWrap64_of_input) - every hypothesis on the input object.
    validate_silent_save already covers
    objects with nested segments whose nested segments are not PT_LOAD with filesz > 0 (validate ignores
    them; they need not be selected).  validate_silent_save_nested / validate_silent_reloaded_nested
@@ -51,8 +59,12 @@ THEOREMS = ["ElfioVerif.C20.validate_overlap", "ElfioVerif.C20.validate_overlap_
             "ElfioVerif.C20.validate_silent_save", "ElfioVerif.C20.validate_silent_reloaded",
             "ElfioVerif.C20.validate_silent_save_nested", "ElfioVerif.C20.validate_silent_reloaded_nested",
             "ElfioVerif.Compose.validate_silent_reloaded_unconditional",
-            "ElfioVerif.Compose.validate_silent_reloaded_flat"]
-EXTRA_IMPORTS = ["ElfioVerif.Props.Compose"]
+            "ElfioVerif.Compose.validate_silent_reloaded_flat",
+            "ElfioVerif.Compose.reload_reports_saved_nested",
+            "ElfioVerif.Compose.validate_silent_reloaded_nested_unconditional",
+            "ElfioVerif.Compose.exNested_ok",
+            "ElfioVerif.Compose.validate_silent_reloaded_flat_input"]
+EXTRA_IMPORTS = ["ElfioVerif.Props.Compose", "ElfioVerif.Props.Compose2"]
 SITES = ["validate", "find_prog", "is_offset_in_section", "get_virtual_addr"]
 RULE = ("writer-domain programs x 4 configurations: save, validate, reload, validate (silence expected); then for "
         "sampled (quick) / all (thorough) ordered pairs of sections: force an overlap by rewriting one sh_offset in "
